@@ -75,6 +75,14 @@ def export_scenario(kind, with_bias):
     s.vars.update({"w": w, "b": b})
     q, exp = quantizer_stub(kind, s, ip)
     bq = Obj(ExtClass("quantized_bits"), {"alpha": None, "__call__": lambda ip_, o, a, k: SNum(QBIAS(Q.num_value(a[0])), "tensor")}) if with_bias == "q" else None
+    if with_bias == "po2b":
+      # a signed power-of-two BIAS behind any kernel kind: its (sign, exponent) pair must sit at the bias' own index
+      eb, sgb = z3.Int("e_bias"), z3.Int("sgn_bias")
+      s.vars.update({"e_bias": eb, "sgn_bias": sgb})
+      ip.assume(z3.Or(sgb == 1, sgb == -1))
+      qb_out = z3.ToReal(sgb) * P(eb)
+      s.hints.extend([eb])
+      bq = Obj(ExtClass("quantized_po2"), {"__call__": lambda ip_, o, a, k: SNum(qb_out, "tensor")})
     qs = [q] + ([bq] if with_bias else [])
     ws = [SNum(w, "tensor")] + ([SNum(b, "tensor")] if with_bias else [])
     stored = []
@@ -98,10 +106,21 @@ def export_scenario(kind, with_bias):
       return s
     goals = [Q.num_value(stored[0][0]) == qw]
     if with_bias:
-      goals.append(Q.num_value(stored[0][1]) == (QBIAS(b) if with_bias == "q" else b))
+      goals.append(Q.num_value(stored[0][1]) == (qb_out if with_bias == "po2b" else QBIAS(b) if with_bias == "q" else b))
     s.claim("applied_once", z3.And(*goals))
     ent = saved["dense0"]
     hw = ent["weights"][0]
+    if with_bias == "po2b":
+      sgs = ent.get("signs") if isinstance(ent, dict) else None
+      aligned = isinstance(sgs, list) and len(sgs) == len(ent["weights"]) == 2
+      s.claim("signs_aligned_with_weights", aligned)
+      if aligned:
+        sv = Q.num_value(sgs[1])
+        s.claim("bias_po2_tuple", z3.And(z3.Or(sv == 1, sv == -1), sv * P(eb) == qb_out,
+                                         Q.num_value(ent["weights"][1]) == z3.ToReal(eb)))
+      if kind in ("fixed", "binary"):
+        s.claim("plain_kernel", Q.num_value(hw) == qw)
+      return s
     if kind in ("fixed", "binary"):
       s.claim("plain", z3.And(Q.num_value(hw) == qw, "signs" not in ent, "scales" not in ent))
     elif kind in ("po2", "relu_po2"):
@@ -383,6 +402,9 @@ def cases(tier):
     for wb in (None, "q", "plain"):
       out.append(Case(PROP, MS, "%s_bias%s" % (kind, wb or "none"), export_scenario(kind, wb), bounds=bounds,
                       replay_kind="c14_export", assumptions=ASSUME, term_mode=True, lo=-80, hi=20))
+  for kind in ("fixed", "binary", "po2", "relu_po2", "auto_po2"):
+    out.append(Case(PROP, MS, "%s_biaspo2b" % kind, export_scenario(kind, "po2b"), bounds=bounds, replay_kind=None,
+                    assumptions=ASSUME, term_mode=True, lo=-80, hi=20))
   for kind in ("rnn", "folded", "pool"):
     out.append(Case(PROP, MS, "branch_%s" % kind, special_scenario(kind), bounds=bounds, replay_kind=None,
                     assumptions=ASSUME, term_mode=True))
